@@ -376,6 +376,27 @@ def trig_parity(a, rng, lvl, variant, used):
     if variant == 'exact':                       # exactly the used size: no trigger (size of the file may exceed it)
         os.truncate(f, used * bs)
         return False
+    if variant.startswith('cut'):
+        # byte-granular: the file loses k bytes INSIDE its last used block (cut1, cut100, cutbsm1) -- with recorded sizes the
+        # unaligned size is accepted by parity_create, so only the block count (rounded DOWN) can notice
+        k = {'cut1': 1, 'cut100': 100, 'cutbsm1': bs - 1}[variant]
+        fs = a.parity_files[lvl]
+        tot = sum(os.path.getsize(x) for x in fs)
+        if len(fs) == 1 or os.path.getsize(fs[1]) == 0:
+            os.truncate(f, used * bs - k)
+            return True
+        # the parity is spread over two files: cut the last one so that the total is used * bs - k
+        sz0 = os.path.getsize(fs[0])
+        os.truncate(fs[1], used * bs - k - sz0)
+        return True
+    if variant.startswith('midcut'):
+        # inside a NON-last used block of a NON-last split: the first file loses its last block and 100 more bytes
+        fs = a.parity_files[lvl]
+        sizes = [os.path.getsize(x) for x in fs]
+        if min(sizes) < 2 * bs:
+            raise RuntimeError('split parity not spread over both files: %s' % sizes)
+        os.truncate(fs[0], sizes[0] - bs - 100)
+        return (sizes[0] - bs - 100) // bs < used
     if variant.startswith('split'):
         # a level made of two files, both holding parity: one of them truncated by a block, or lost and recreated empty
         k = int(variant[5])
@@ -787,6 +808,60 @@ def scenario_rewritten_as_copies(ctx, seed, uuid):
         shutil.rmtree(a.root, ignore_errors=True)
 
 
+def scenario_zero_states(ctx, seed, kind, shape, uuid):
+    """the zero-size interlock for files in every recorded state: `partly` (some blocks synced, some not: a partial sync),
+    `never` (recorded, no block synced: a range that did not reach it), `killed` (recorded by the early save of a sync that
+    never wrote its final state), `copy` (copy-detected: REP blocks).  Truncated to zero, every one of them must be refused."""
+    rng = random.Random(seed)
+    nd, np_, nc = shape
+    a = new_array(ctx, rng, nd=nd, np_=np_, ncontent=nc, uuid=uuid)
+    paths = L.Paths(a)
+    desc = 'zero:recorded %s nd=%d np=%d nc=%d%s' % (kind, nd, np_, nc, ' uuid' if uuid else '')
+    replay = {'seed': seed, 'kind': 'zero_states', 'state': kind, 'shape': shape, 'fake_uuid': uuid}
+    try:
+        d = a.disks[seed % nd]
+        name = 'victim'
+        if kind == 'copy':
+            other = a.disks[(seed + 1) % nd]
+            name = 'f%d' % ((seed + 1) % nd)
+            src = a.path(other, name); st0 = os.stat(src)
+            shutil.copyfile(src, a.path(d, name)); os.utime(a.path(d, name), ns=(st0.st_mtime_ns, st0.st_mtime_ns))
+            a.note_version(d, name)
+        else:
+            a.write(d, name, rng.randbytes(4 * 1024 + 100))
+        if kind == 'killed':
+            r = a.run('sync', '--test-kill-after-sync')
+        else:
+            r = a.run('sync', '-S', '0', '-B', '1')
+        if r.rc != 0:
+            raise RuntimeError('intermediate sync failed: %r' % r)
+        st = a.content()
+        f = [x for x in st['disks'][d]['files'] if x['sub'].decode('latin1') == name][0]
+        if kind == 'partly':
+            p0 = f['blocks'][0][1]
+            r = a.run('sync', '-S', str(p0), '-B', '2')
+            if r.rc != 0:
+                raise RuntimeError('partial sync failed: %r' % r)
+            st = a.content()
+            f = [x for x in st['disks'][d]['files'] if x['sub'].decode('latin1') == name][0]
+        states = [b_[0] for b_ in f['blocks']]
+        want = {'partly': lambda s_: 'BLK' in s_ and any(x != 'BLK' for x in s_), 'never': lambda s_: all(x == 'CHG' for x in s_),
+                'killed': lambda s_: all(x == 'CHG' for x in s_), 'copy': lambda s_: all(x == 'REP' for x in s_)}[kind]
+        if not want(states):
+            raise RuntimeError('could not bring %s:%s into the state `%s`: blocks %s' % (d, name, kind, states))
+        replay['block_states'] = states
+        p = a.path(d, name)
+        open(p, 'wb').close()
+        a.note_version(d, name)
+        o = run_case(ctx, a, paths, 'sync', [], 'refuse', desc, replay)
+        if 'zero size' not in o.r.err and o.rc != 0:
+            ctx.viol('zero_msg', 'refusal without the zero-size diagnostic (%s): %s' % (desc, o.r.err[-200:]), replay)
+        run_case(ctx, a, paths, 'sync', ['--force-empty'], 'refuse', desc + ' wrong-override', replay)
+        run_case(ctx, a, paths, 'sync', ['--force-zero'], 'proceed', desc + ' override', replay)
+    finally:
+        shutil.rmtree(a.root, ignore_errors=True)
+
+
 def scenario_empty_dirs_only(ctx, seed):
     """a disk that only ever held empty directories: removing them is not `all files missing`"""
     rng = random.Random(seed)
@@ -980,6 +1055,20 @@ def main(tier, replay=None):
         for sh in ([(3, 2, 2)] if not thorough else [(3, 2, 2), (2, 1, 1), (3, 3, 1)]):
             for where in (range(sh[1]) if thorough else [rng.randrange(sh[1])]):
                 jobs.append((scenario_sync_trigger, (rng.getrandbits(30), 'parity', where, variant, bool(k % 2), sh, 'split2lim')))
+            k += 1
+    # (c4) byte-granular cuts inside the last used block, in every content format that records the sizes, both uuid modes
+    for fmt in ['hashsize8', 'split2', 'split2lim']:
+        for variant in (['cut1', 'cut100', 'cutbsm1'] + (['midcut'] if fmt == 'split2lim' else [])):
+            for uu in ([False, True] if (thorough or variant in ('cut100', 'midcut')) else [bool(k % 2)]):
+                sh = [(2, 1, 1), (2, 2, 2)][k % 2] if uu else shape(k)
+                for where in (range(sh[1]) if thorough else [rng.randrange(sh[1])]):
+                    jobs.append((scenario_sync_trigger, (rng.getrandbits(30), 'parity', where, variant, False if variant != 'cut100' else bool(k % 2), sh, fmt, uu)))
+                k += 1
+    # (b'') the zero-size interlock for files in every recorded state
+    for kind_ in ['partly', 'never', 'killed', 'copy']:
+        for uu in [False, True]:
+            sh = [(2, 1, 1), (2, 2, 2)][k % 2] if uu else shape(k)
+            jobs.append((scenario_zero_states, (rng.getrandbits(30), kind_, sh, uu)))
             k += 1
     # (d) (e) configuration
     for kind in ['blocksize', 'hashsize_recorded', 'hashsize_default', 'disk_removed', 'disk_renamed']:
